@@ -24,7 +24,7 @@ def random_table(rnd: random.Random) -> list[dict]:
     for _ in range(n):
         text = [rnd.choice(alphabet) for _ in range(rnd.choice([1, 1, 1, 2, 2, 3]))]
         while True:
-            code = tuple(rnd.randrange(1, 250) for _ in range(rnd.choice([1, 1, 2])))
+            code = tuple(rnd.choice([0, 0, 1, 0x41, 0xFF] + [rnd.randrange(1, 250)] * 6) for _ in range(rnd.choice([1, 1, 2, 3])))
             if rnd.random() < 0.1 or code not in used_codes:
                 break
         used_codes.add(code)
@@ -76,7 +76,7 @@ def run(ctx) -> None:
     ctx.sample({"table": tasks[0]["table"], "string": strings[-1], "observed": res[0][-1]})
     # programs
     gp = tlc.run("GenC18P", "INIT Init\nNEXT Next\nCHECK_DEADLOCK FALSE\nINVARIANT Emit\n", tag="c18.genp",
-                 env={"MAXITEMS": 5 if ctx.quick else 6})
+                 env={"MAXITEMS": 6 if ctx.quick else 7})
     ctx.add_tlc(gp, "GenC18P item sequences")
     progs = [v for v in gp.printed if "items" in v]
     ptasks = []
